@@ -519,6 +519,9 @@ pub fn replay_meuvec(args: &Args) {
 // ---------------------------------------------------------------- long histories of one hash-identified builder (spec/GenStress.tla)
 
 fn sem_build<'a, B: rsdd::builder::sdd::SddBuilder<'a>>(b: &'a B, tt: TT, v: usize, nv: usize, memo: &mut HashMap<(TT, usize), SddPtr<'a>>) -> SddPtr<'a> {
+    sem_build_emb(b, tt, v, nv, &[], memo)
+}
+fn sem_build_emb<'a, B: rsdd::builder::sdd::SddBuilder<'a>>(b: &'a B, tt: TT, v: usize, nv: usize, emb: &[usize], memo: &mut HashMap<(TT, usize), SddPtr<'a>>) -> SddPtr<'a> {
     if tt == 0 {
         return SddPtr::PtrFalse;
     }
@@ -530,11 +533,11 @@ fn sem_build<'a, B: rsdd::builder::sdd::SddBuilder<'a>>(b: &'a B, tt: TT, v: usi
     }
     let (lo, hi) = (cof(tt, v, false, nv), cof(tt, v, true, nv));
     let r = if lo == hi {
-        sem_build(b, lo, v + 1, nv, memo)
+        sem_build_emb(b, lo, v + 1, nv, emb, memo)
     } else {
-        let l = sem_build(b, lo, v + 1, nv, memo);
-        let h = sem_build(b, hi, v + 1, nv, memo);
-        let x = SddPtr::Var(VarLabel::new_usize(v), true);
+        let l = sem_build_emb(b, lo, v + 1, nv, emb, memo);
+        let h = sem_build_emb(b, hi, v + 1, nv, emb, memo);
+        let x = SddPtr::Var(VarLabel::new_usize(if emb.is_empty() { v } else { emb[v] }), true);
         b.or(b.and(x, h), b.and(x.neg(), l))
     };
     memo.insert((tt, v), r);
@@ -549,17 +552,35 @@ pub fn replay_stressvec(args: &Args) {
     let mut t = Tally { vectors: vecs.len(), steps: 0, mismatches: 0, bad: vec![] };
     let labels: Vec<VarLabel> = (0..nv).map(VarLabel::new_usize).collect();
     let mut configs = 0;
-    for (name, vt) in [("right-linear", VTree::right_linear(&labels)), ("even split", VTree::even_split(&labels, 2))] {
+    // the third builder works over 70 labels (random vtree); the functions' variables sit on scattered labels, two of them congruent
+    // modulo 64, some beyond 63: a hash-identified builder must stay correct whatever the size of the label space (a quarter of the vectors)
+    let mut rng = Rng::new(args.num("seed", 1) ^ 0x57e5);
+    let nlabels = 70usize;
+    let base = rng.below(6);
+    let mut wemb: Vec<usize> = vec![base, base + 64];
+    while wemb.len() < nv {
+        let l = rng.below(nlabels);
+        if !wemb.contains(&l) {
+            wemb.push(l);
+        }
+    }
+    for k in (1..wemb.len()).rev() {
+        wemb.swap(k, rng.below(k + 1));
+    }
+    let wlab = rng.perm(nlabels);
+    let wide_vt = rand_vtree(&mut rng, &wlab);
+    for (name, vt, emb, stride) in [("right-linear", VTree::right_linear(&labels), vec![], 1usize), ("even split", VTree::even_split(&labels, 2), vec![], 1),
+                                    ("random vtree over 70 labels, scattered variables", wide_vt, wemb, 4)] {
         configs += 1;
         let b = SemanticSddBuilder::<{ rsdd::constants::primes::U64_LARGEST }>::new(vt);
         let mut memo = HashMap::new();
-        for v in &vecs {
+        for v in vecs.iter().step_by(stride) {
             let (tf, tg) = (tt_of(&v["f"]), tt_of(&v["g"]));
             t.steps += 1;
             let r = guarded(|| {
-                let f = sem_build(&b, tf, 0, nv, &mut memo);
-                let g = sem_build(&b, tg, 0, nv, &mut memo);
-                (sdd_tt(f, nv), sdd_tt(g, nv), sdd_tt(b.and(f, g), nv), sdd_tt(b.or(f, g), nv), sdd_tt(b.negate(f), nv))
+                let f = sem_build_emb(&b, tf, 0, nv, &emb, &mut memo);
+                let g = sem_build_emb(&b, tg, 0, nv, &emb, &mut memo);
+                (sdd_tt_emb(f, nv, &emb), sdd_tt_emb(g, nv, &emb), sdd_tt_emb(b.and(f, g), nv, &emb), sdd_tt_emb(b.or(f, g), nv, &emb), sdd_tt_emb(b.negate(f), nv, &emb))
             });
             let ok = match &r {
                 Ok((a, c, x, y, n)) => *a == tf && *c == tg && *x == tt_of(&v["conj"]) && *y == tt_of(&v["disj"]) && *n == (!tf & full(nv)),
@@ -685,6 +706,65 @@ pub fn replay_wmcvec(args: &Args) {
             }
         }
     }
+    // --- WIDE: the same functions and weights in builders over 72 labels; variable i sits on label emb[i] (two labels congruent modulo 64,
+    // some beyond 63), every other label carries the weights of variable 0 and is mentioned by no diagram: BDD counts (both kinds of
+    // vectors) and SDD counts (normalised weights) must not change
+    if nv >= 2 {
+        let nlabels = 72usize;
+        let mut rng = Rng::new(args.num("seed", 1) ^ 0x3a1d);
+        for (i, (key, o)) in orders.iter().enumerate().take(2) {
+            configs += 1;
+            let base = rng.below(8);
+            let mut emb: Vec<usize> = vec![base, base + 64];
+            while emb.len() < nv {
+                let l = rng.below(nlabels);
+                if !emb.contains(&l) {
+                    emb.push(l);
+                }
+            }
+            for k in (1..emb.len()).rev() {
+                emb.swap(k, rng.below(k + 1));
+            }
+            let widen = |ws: &crate::bdd_rec::WeightSpec| {
+                let mut w = vec![ws.w[0].clone(); nlabels];
+                for (v, l) in emb.iter().enumerate() {
+                    w[*l] = ws.w[v].clone();
+                }
+                crate::bdd_rec::WeightSpec { kind: ws.kind, p: ws.p, wexp: ws.wexp, w }
+            };
+            rsdd::verif::set_table_capacity(0);
+            if i == 0 {
+                let mut full_order: Vec<usize> = rng.perm(nlabels);
+                // the mentioned labels keep the relative order o
+                let slots: Vec<usize> = full_order.iter().enumerate().filter(|(_, l)| emb.contains(l)).map(|(k, _)| k).collect();
+                for (k, v) in slots.iter().zip(o.iter()) {
+                    full_order[*k] = emb[*v];
+                }
+                let b = RobddBuilder::<AllIteTable<BddPtr>>::new(vo(&full_order));
+                let mut memo = HashMap::new();
+                for v in vecs.iter().step_by(2) {
+                    let f = bdd_build_emb(&b, tt_of(&v["f"]), 0, o, nv, &emb, &mut memo);
+                    let exp = if v["op"] == "wmc" { &v["val"] } else { &v["vals"][key.as_str()] };
+                    t.steps += 1;
+                    if let Err(got) = count_matches(f, &widen(&weight_spec(v)), nv, exp) {
+                        bad(&mut t, format!("bdd WIDE 72 labels emb {emb:?} order {o:?}"), v, got);
+                    }
+                }
+            } else {
+                let lab = rng.perm(nlabels);
+                let bm = CompressionSddBuilder::new(rand_vtree(&mut rng, &lab));
+                let b = &bm;
+                let mut memo = HashMap::new();
+                for v in vecs.iter().filter(|v| v["op"] == "wmc").step_by(2) {
+                    let f = sdd_build_emb(b, tt_of(&v["f"]), 0, nv, &emb, &mut memo);
+                    t.steps += 1;
+                    if let Err(got) = count_matches(f, &widen(&weight_spec(v)), nv, &v["val"]) {
+                        bad(&mut t, format!("sdd WIDE random vtree over 72 labels emb {emb:?}"), v, got);
+                    }
+                }
+            }
+        }
+    }
     // --- SDDs under three vtree shapes, normalised weights
     for (i, (_, o)) in orders.iter().enumerate().take(3) {
         configs += 1;
@@ -786,15 +866,22 @@ pub fn replay_itevec(args: &Args) {
 // ---------------------------------------------------------------- SDD
 
 fn sdd_eval(p: SddPtr, a: usize) -> bool {
+    sdd_eval_emb(p, a, &[])
+}
+/// emb[i] = label of the function's variable i (empty = identity); a label outside emb reads as false AND marks the result wrong
+fn sdd_eval_emb(p: SddPtr, a: usize, emb: &[usize]) -> bool {
     match p {
         SddPtr::PtrTrue => true,
         SddPtr::PtrFalse => false,
-        SddPtr::Var(l, pol) => ((a >> l.value_usize()) & 1 == 1) == pol,
+        SddPtr::Var(l, pol) => {
+            let v = if emb.is_empty() { l.value_usize() } else { emb.iter().position(|x| *x == l.value_usize()).unwrap_or(63) };
+            ((a >> v) & 1 == 1) == pol
+        }
         _ => {
             let mut r = false;
             let reg = if p.is_neg() { p.neg() } else { p };
             for e in reg.node_iter() {
-                if sdd_eval(e.prime(), a) && sdd_eval(e.sub(), a) {
+                if sdd_eval_emb(e.prime(), a, emb) && sdd_eval_emb(e.sub(), a, emb) {
                     r = true;
                     break;
                 }
@@ -806,8 +893,14 @@ fn sdd_eval(p: SddPtr, a: usize) -> bool {
 fn sdd_tt(p: SddPtr, nv: usize) -> TT {
     (0..(1usize << nv)).fold(0u64, |acc, a| if sdd_eval(p, a) { acc | (1 << a) } else { acc })
 }
+fn sdd_tt_emb(p: SddPtr, nv: usize, emb: &[usize]) -> TT {
+    (0..(1usize << nv)).fold(0u64, |acc, a| if sdd_eval_emb(p, a, emb) { acc | (1 << a) } else { acc })
+}
 
 fn sdd_build<'a>(b: &'a CompressionSddBuilder<'a>, tt: TT, v: usize, nv: usize, memo: &mut HashMap<(TT, usize), SddPtr<'a>>) -> SddPtr<'a> {
+    sdd_build_emb(b, tt, v, nv, &[], memo)
+}
+fn sdd_build_emb<'a>(b: &'a CompressionSddBuilder<'a>, tt: TT, v: usize, nv: usize, emb: &[usize], memo: &mut HashMap<(TT, usize), SddPtr<'a>>) -> SddPtr<'a> {
     if tt == 0 {
         return SddPtr::PtrFalse;
     }
@@ -819,11 +912,11 @@ fn sdd_build<'a>(b: &'a CompressionSddBuilder<'a>, tt: TT, v: usize, nv: usize, 
     }
     let (lo, hi) = (cof(tt, v, false, nv), cof(tt, v, true, nv));
     let r = if lo == hi {
-        sdd_build(b, lo, v + 1, nv, memo)
+        sdd_build_emb(b, lo, v + 1, nv, emb, memo)
     } else {
-        let l = sdd_build(b, lo, v + 1, nv, memo);
-        let h = sdd_build(b, hi, v + 1, nv, memo);
-        let x = SddPtr::Var(VarLabel::new_usize(v), true);
+        let l = sdd_build_emb(b, lo, v + 1, nv, emb, memo);
+        let h = sdd_build_emb(b, hi, v + 1, nv, emb, memo);
+        let x = SddPtr::Var(VarLabel::new_usize(if emb.is_empty() { v } else { emb[v] }), true);
         b.or(b.and(x, h), b.and(x.neg(), l))
     };
     memo.insert((tt, v), r);
@@ -884,7 +977,36 @@ pub fn replay_sddvec(args: &Args) {
     }
     let mut t = Tally { vectors: vecs.len(), steps: 0, mismatches: 0, bad: vec![] };
     let mut configs = 0;
-    for (i, vt) in vtrees.iter().enumerate() {
+    // WIDE: vtrees over 70 labels (right-linear, left-linear, random) in which the function's variables sit on scattered labels
+    // (two of them congruent modulo 64, some beyond 63); every third vector
+    let mut wide: Vec<(VTree, Vec<usize>)> = vec![];
+    if nv >= 2 {
+        let nlabels = 70usize;
+        for kind in 0..3 {
+            let base = rng.below(6);
+            let mut emb: Vec<usize> = vec![base, base + 64];
+            while emb.len() < nv {
+                let l = rng.below(nlabels);
+                if !emb.contains(&l) {
+                    emb.push(l);
+                }
+            }
+            for k in (1..emb.len()).rev() {
+                emb.swap(k, rng.below(k + 1));
+            }
+            let lab = rng.perm(nlabels);
+            let labels: Vec<VarLabel> = lab.iter().map(|v| VarLabel::new_usize(*v)).collect();
+            let vt = match kind {
+                0 => VTree::right_linear(&labels),
+                1 => VTree::left_linear(&labels),
+                _ => rand_vtree(&mut rng, &lab),
+            };
+            wide.push((vt, emb));
+        }
+    }
+    let all: Vec<(usize, &VTree, Vec<usize>, usize)> = vtrees.iter().enumerate().map(|(i, vt)| (i, vt, vec![], 1usize))
+        .chain(wide.iter().enumerate().map(|(i, (vt, emb))| (3 * i, vt, emb.clone(), 3usize))).collect();
+    for (i, vt, emb, stride) in all {
         for compress in [true, false] {
             if !compress && i % 3 != 0 {
                 continue;
@@ -896,14 +1018,14 @@ pub fn replay_sddvec(args: &Args) {
             let b = &bm;
             let mut memo = HashMap::new();
             let mut canon: HashMap<TT, SddPtr> = HashMap::new();
-            for v in &vecs {
+            for v in vecs.iter().step_by(stride) {
                 let op = v["op"].as_str().unwrap();
-                let f = sdd_build(b, tt_of(&v["f"]), 0, nv, &mut memo);
-                let g = sdd_build(b, tt_of(&v["g"]), 0, nv, &mut memo);
-                let h = sdd_build(b, tt_of(&v["h"]), 0, nv, &mut memo);
+                let f = sdd_build_emb(b, tt_of(&v["f"]), 0, nv, &emb, &mut memo);
+                let g = sdd_build_emb(b, tt_of(&v["g"]), 0, nv, &emb, &mut memo);
+                let h = sdd_build_emb(b, tt_of(&v["h"]), 0, nv, &emb, &mut memo);
                 let a: Vec<usize> = v["a"].as_array().unwrap().iter().map(|x| x.as_u64().unwrap() as usize).collect();
                 let exp = tt_of(&v["exp"]);
-                let vl = |i: usize| VarLabel::new_usize(i);
+                let vl = |i: usize| VarLabel::new_usize(if emb.is_empty() { i } else { emb[i] });
                 t.steps += 1;
                 let r = guarded(|| match op {
                     "cond" => b.condition(f, vl(a[0]), a[1] == 1),
@@ -919,7 +1041,7 @@ pub fn replay_sddvec(args: &Args) {
                 });
                 let (ok, got) = match r {
                     Ok(p) => {
-                        let got = sdd_tt(p, nv);
+                        let got = sdd_tt_emb(p, nv, &emb);
                         let c = *canon.entry(got).or_insert(p);
                         (got == exp && (!compress || c == p), json!(got))
                     }
@@ -928,7 +1050,7 @@ pub fn replay_sddvec(args: &Args) {
                 if !ok {
                     t.mismatches += 1;
                     if t.bad.len() < 10 {
-                        t.bad.push(json!({"vtree": crate::sdd_rec::vtree_json(vt), "compress": compress, "vector": v, "got_tt": got, "exp_tt": exp}));
+                        t.bad.push(json!({"vtree": crate::sdd_rec::vtree_json(vt), "emb": emb, "compress": compress, "vector": v, "got_tt": got, "exp_tt": exp}));
                     }
                 }
             }
